@@ -291,6 +291,8 @@ def main(argv: List[str]) -> int:
         return int(mod.replay(payload))
     try:
         rep = mod.run(tier=args.tier, seed=seed)
+        from props import _proofs
+        _proofs.attach(rep, args.tier, seed)
     except Exception:
         traceback.print_exc()
         rep = Report(property_id=args.property, level="other", explanation="checker crashed")
